@@ -62,6 +62,25 @@ func checkTotal(cr *checkResult, prop string) {
 			cr.add(prop, "panic", r.OpID, "panic:"+panicSig(r.Panic)+"@"+top, "%s panicked: %s\n%s", r.Kind, clip(r.Panic), r.Stack)
 		}
 	}
+	// "report problems through their error results": an injected fault that is
+	// certain to have reached the library as an error (unreadable file, failed
+	// open or read, failing callback, failed Write) must not end in a nil error.
+	if prop == "C08" {
+		for _, r := range o.flat() {
+			if !r.Done || r.Aborted != "" || r.Panic != "" || r.Err != "" || r.Skipped != "" {
+				continue
+			}
+			for _, f := range r.Fired {
+				switch f {
+				case "readfile:enoent", "readfile:eio", "fsread:eio", "fsopen:enoent", "fsopen:eacces", "fsopen:eio", "func:error", "func:panic", "method:error", "method:panic":
+					cr.add(prop, "fault-swallowed", r.OpID, "fault-swallowed:"+f, "%s returned nil although the injected fault %s reached it as an error", r.Kind, f)
+				}
+			}
+			if r.FailedAt != 0 {
+				cr.add(prop, "fault-swallowed", r.OpID, "fault-swallowed:write", "%s returned nil although Write #%d failed", r.Kind, r.FailedAt)
+			}
+		}
+	}
 	for _, p := range o.TaskPan {
 		cr.add(prop, "panic", -1, "panic:task", "%s", p)
 	}
